@@ -43,6 +43,12 @@ def plan(tier):
                             'from ANY state Inv(C, o=%d) of the %s back end (arbitrary %d-round key schedule, arbitrary counter C incl. all carries and wrap-around, arbitrary data): encrypt(%d bytes%s) returns 1, '
                             'output = input xor (rest of buffered batch, then E(C), E(C+1), ...), and Inv holds again for the advanced counter/offset' % (o, name, lowr, n, ', out == in' if inplace else ''),
                             defs=dict(base, OB_STEP=1, O=o, N=n, NR=lowr, INPLACE=inplace), ll=ll, timeout=900, fsarray=fs, sanitize=True))
+        # in-place pieces longer than half a batch (the xor helpers may take wide or overlapping strides there)
+        if v:
+            for (o, n) in ((B, B // 2 + blk + 4), (1, B - blk - 3), (blk + 5, B // 2 + 9)):
+                qs.append(Q('step:%s:o%d:n%d:inplace' % (name, o, n), 'c05.c',
+                            'from ANY state Inv(C, o=%d) of the %s back end: encrypt(%d bytes, out == in) - a single piece of more than half a batch processed in place' % (o, name, n),
+                            defs=dict(base, OB_STEP=1, O=o, N=n, NR=lowr, INPLACE=1), ll=ll, timeout=900, fsarray=fs, sanitize=True))
         # the same step at full cipher depth on a few points: ties the block function of the back end to the scalar cipher
         deep = [(B, B), (B - 1, 2)] if tier == 'quick' else [(B, B), (B - 1, 2), (B, 1), (0, B + 1), (B, 2 * B + 1)]
         if c == 3 and v and tier == 'quick': deep = []      # Mantis vec128 at full depth: thorough tier only (block function also decided by C07 batch)
